@@ -353,6 +353,18 @@ fn stack_cells(cur: &[Felt], nxt: &[Felt], op: u8, sp: &OpSpec) -> Result<Vec<Ce
         c.exclude = vec![Felt::ZERO, Felt::ONE];
         c
     };
+    // U32ADD / U32ADD3: the documents fix the carry as s0' = h2; h3 is not mentioned there, so the
+    // prover may put anything into it: a wrong carry must be rejected whatever h3 holds
+    if matches!(op, opc::U32ADD | opc::U32ADD3) {
+        fn carry_with_h3(w: Felt, c: &[Felt], _n: &[Felt]) -> Felt {
+            // the carry that a constraint of the form s0' = 2^16 h3 + h2 would accept for h3 = w
+            c[HELPER + 2] + Felt::new(1 << 16) * w
+        }
+        let mut c = Cell::new(false, HELPER + 3, "s0'(wrong carry, with the unused helper h3 adjusted)");
+        c.also = Some((true, tk::STACK, carry_with_h3));
+        c.only = Some(vec![Felt::ONE, Felt::new(2), Felt::new(7), Felt::new(0xffff)]);
+        cells.push(c);
+    }
     match op {
         opc::NOT => cells.push(nb(not_r)),
         opc::AND => cells.push(nb(and_r)),
@@ -566,6 +578,49 @@ pub fn attack_trace(air: &ProcessorAir, main: &ColMatrix<Felt>, budget: usize, k
                 }
             }
         }
+        if is_hasher(r) && is_hasher(r + 1) && r % 8 == 7 {
+            // last row of a cycle: what is carried into the next permutation depends on the
+            // hasher's own selectors (columns CHIP+1..CHIP+3) at this row
+            let sel = (main.get(tk::CHIP + 1, r).as_int(), main.get(tk::CHIP + 2, r).as_int(), main.get(tk::CHIP + 3, r).as_int());
+            let st = tk::CHIP + 4;
+            match sel {
+                (1, 0, 0) => {
+                    // linear hash, absorbing the next elements: the capacity h0..h3 is kept
+                    if w.honest_ok(r) {
+                        let ok = (0..4).all(|j| main.get(st + j, r + 1) == main.get(st + j, r));
+                        if ok {
+                            classes.insert("hasher-absorb(capacity kept)".into());
+                            for j in 0..4 {
+                                w.attack(r, "hasher", &Cell::new(true, st + j, format!("capacity{}'(linear hash absorbs the next elements)", j)), &[], false);
+                            }
+                        } else {
+                            w.inconsistent.push(format!("hasher row {}: capacity is not carried over on an absorb row", r));
+                        }
+                    }
+                }
+                (1, 0, 1) | (1, 1, 0) | (1, 1, 1) => {
+                    // Merkle path: the digest h4..h7 goes to h4'..h7' or h8'..h11' by the index bit
+                    if w.honest_ok(r) {
+                        let i0 = main.get(tk::CHIP + 16, r).as_int();
+                        let i1 = main.get(tk::CHIP + 16, r + 1).as_int();
+                        let b = i0.wrapping_sub(2 * i1);
+                        if b <= 1 {
+                            let off = if b == 0 { 4 } else { 8 };
+                            let ok = (0..4).all(|j| main.get(st + off + j, r + 1) == main.get(st + 4 + j, r));
+                            if ok {
+                                classes.insert(format!("hasher-merkle-carry(b={})", b));
+                                for j in 0..4 {
+                                    w.attack(r, "hasher", &Cell::new(true, st + off + j, format!("digest{}'(carried into the next level of a Merkle path)", j)), &[], false);
+                                }
+                            } else {
+                                w.inconsistent.push(format!("hasher row {}: the digest is not carried into the next Merkle level", r));
+                            }
+                        }
+                    }
+                }
+                _ => {}
+            }
+        }
         if is_bitwise(r) {
             let bw = tk::CHIP + 2;
             let pos = r % 8;
@@ -769,6 +824,31 @@ pub fn directed() -> Vec<Case> {
         // depth 16 and depth > 16 (three extra items below)
         v.push(Case { src: format!("begin {} end", b), stack: st.clone(), adv: (1..40).collect(), ..Case::default() });
         v.push(Case { src: format!("begin push.91 push.92 push.93 {} drop drop drop end", b), stack: st.clone(), adv: (1..40).collect(), ..Case::default() });
+    }
+    // Merkle operations (MPVERIFY, MRUPDATE and the hasher's Merkle-path rows)
+    {
+        use vm_core::crypto::merkle::MerkleTree;
+        for depth in [1u32, 2, 3, 4] {
+            let n = 1usize << depth;
+            let leaves: Vec<[u64; 4]> = (0..n).map(|i| [i as u64 + 1, 7, 9, (i * i) as u64 + 3]).collect();
+            let words: Vec<vm_core::Word> = leaves.iter().map(|w| w.map(Felt::new)).collect();
+            let mt = MerkleTree::new(words.clone()).unwrap();
+            let root: Vec<u64> = mt.root().as_elements().iter().map(|e| e.as_int()).collect();
+            for idx in [0usize, n - 1, n / 2] {
+                // mtree_get: [d, i, R, ...]
+                let mut st = vec![depth as u64, idx as u64];
+                st.extend(root.iter().rev());
+                v.push(Case { src: "begin mtree_get dropw end".into(), stack: st.clone(), trees: vec![leaves.clone()], ..Case::default() });
+                // mtree_set: [d, i, R, V', ...]
+                let mut st2 = st.clone();
+                st2.extend([5u64, 6, 7, 8]);
+                v.push(Case { src: "begin mtree_set dropw end".into(), stack: st2, trees: vec![leaves.clone()], ..Case::default() });
+                // mtree_verify: [V, d, i, R, ...]
+                let mut st3: Vec<u64> = leaves[idx].iter().rev().copied().collect();
+                st3.extend(st.iter());
+                v.push(Case { src: "begin mtree_verify end".into(), stack: st3, trees: vec![leaves.clone()], ..Case::default() });
+            }
+        }
     }
     // procedures: locals (FMPUPDATE / FMPADD), call, syscall, dynexec, dyncall, caller
     let kernel = "export.kfoo\n  caller drop drop drop drop push.5 add\nend\n";
